@@ -290,6 +290,33 @@ template <class PP> struct PPCmds {
       vm.iout(pre + ".dist", (long)(p.end() - p.begin()));
       return true;
     }
+    if (c == "pp.iterops") {  // every operator of the segment iterator, reported as plain integers
+      PP &p = get(vm.next()); std::string pre = vm.next();
+      const int N = p.getNumSegments();
+      for (int i = 0; i <= N; i++)
+        for (int j = 0; j <= N; j++) {
+          auto a = p.begin() + i, b = p.begin() + j;
+          vm.iout(pre + ".diff." + std::to_string(i) + "." + std::to_string(j), (long)(a - b));
+          vm.iout(pre + ".eq." + std::to_string(i) + "." + std::to_string(j), a == b);
+          vm.iout(pre + ".ne." + std::to_string(i) + "." + std::to_string(j), a != b);
+        }
+      for (int i = 0; i < N; i++) {
+        auto it = p.begin() + i;
+        auto old = it++;
+        vm.iout(pre + ".postinc.old." + std::to_string(i), (*old).index()); vm.iout(pre + ".postinc.new." + std::to_string(i), (long)(it - p.begin()));
+        auto it2 = p.begin() + (i + 1);
+        auto old2 = it2--;
+        vm.iout(pre + ".postdec.old." + std::to_string(i), (long)(old2 - p.begin())); vm.iout(pre + ".postdec.new." + std::to_string(i), (*it2).index());
+        auto it3 = p.begin() + i; ++it3; vm.iout(pre + ".preinc." + std::to_string(i), (long)(it3 - p.begin()));
+        auto it4 = p.begin() + (i + 1); --it4; vm.iout(pre + ".predec." + std::to_string(i), it4->index());
+        vm.iout(pre + ".arrow." + std::to_string(i), (p.begin() + i)->index());
+      }
+      vm.iout(pre + ".enddist", (long)(p.end() - p.begin()));
+      PP other(p);
+      vm.iout(pre + ".otherparent.eq", p.begin() == other.begin());
+      vm.iout(pre + ".otherparent.ne", p.begin() != other.begin());
+      return true;
+    }
     if (c == "pp.at") {
       PP &p = get(vm.next()); int i = vm.nextInt(); std::string n = vm.next();
       long threw = 0;
